@@ -58,6 +58,9 @@ type lPool struct {
 	Min    string `json:"min,omitempty"`
 	Max    string `json:"max,omitempty"`
 	Ini    string `json:"ini,omitempty"`
+	// Snap: the range bounds (and an initial price equal to one of them) are moved onto the app's price ticks when the
+	// pool is created, as the module requires; cases recorded before this field existed keep their literal bounds
+	Snap bool `json:"snap,omitempty"`
 }
 
 type lCfg struct {
@@ -186,7 +189,7 @@ func genLPool(rt *rapid.T, pair int, ranged bool, lbl string) lPool {
 	// price around 1 (between 0.5 and 2)
 	pm := rapid.Int64Range(500, 2000).Draw(rt, lbl+"_price")
 	x := y.MulRaw(pm).QuoRaw(1000)
-	p := lPool{Pair: pair, Ranged: ranged, X: x.String(), Y: y.String()}
+	p := lPool{Pair: pair, Ranged: ranged, X: x.String(), Y: y.String(), Snap: true}
 	if ranged {
 		price := sdk.NewDec(pm).QuoInt64(1000)
 		lo := rapid.Int64Range(1, 400).Draw(rt, lbl+"_lo")
@@ -273,7 +276,18 @@ func (m *lMachine) createPool(pl lPool, lp int) error {
 	coins := sdk.NewCoins(sdk.NewCoin(cfg.Denoms[pr.Quote], mustInt(pl.X)), sdk.NewCoin(cfg.Denoms[pr.Base], mustInt(pl.Y)))
 	var msg sdk.Msg
 	if pl.Ranged {
-		msg = liqtypes.NewMsgCreateRangedPool(app, c.Accs[lp].Addr, pr.ID, coins, sdk.MustNewDecFromStr(pl.Min), sdk.MustNewDecFromStr(pl.Max), sdk.MustNewDecFromStr(pl.Ini))
+		lo, hi, ini := sdk.MustNewDecFromStr(pl.Min), sdk.MustNewDecFromStr(pl.Max), sdk.MustNewDecFromStr(pl.Ini)
+		if pl.Snap {
+			prec := int(m.params(app).TickPrecision)
+			iniLo, iniHi := ini.Equal(lo), ini.Equal(hi)
+			lo, hi = amm.PriceToDownTick(lo, prec), amm.PriceToUpTick(hi, prec)
+			if iniLo {
+				ini = lo
+			} else if iniHi {
+				ini = hi
+			}
+		}
+		msg = liqtypes.NewMsgCreateRangedPool(app, c.Accs[lp].Addr, pr.ID, coins, lo, hi, ini)
 	} else {
 		msg = liqtypes.NewMsgCreatePool(app, c.Accs[lp].Addr, pr.ID, coins)
 	}
@@ -472,7 +486,7 @@ func (m *lMachine) apply(i int, op lOp) {
 	case "block":
 		m.block(i, op.Dt)
 		return
-	case "oprice", "gauge", "distr":
+	case "oprice", "gauge", "distr", "feegift":
 		m.c19Apply(i, op)
 	case "limit", "market":
 		m.placeOrder(i, op)
@@ -588,6 +602,8 @@ func (m *lMachine) apply(i int, op lOp) {
 	case "newpool":
 		if err := m.createPool(*op.New, op.Actor); err == nil {
 			m.ok["newpool"]++
+		} else if debugErrs {
+			m.r.Class(fmt.Sprintf("err:newpool:%.70v", err))
 		}
 	case "wforeign":
 		// a withdrawal from pool op.Pool that offers the share coin of another pool (op.Order) of the same app
